@@ -15,9 +15,10 @@ FORMS = [
  F("riscv", "addi", "addi t0, t0, ", "", 12, lo=-2048, hi=4095), F("riscv", "slli", "slli t0, t0, ", "", 5, lo=0, hi=31), F("riscv", "lui", "lui t0, ", "", 20, lo=-(1 << 19), hi=(1 << 20) - 1),
  F("mips32", "addiu", "addiu $t0, $t0, ", "", 16), F("mips32", "sll", "sll $t0, $t0, ", "", 5, lo=0, hi=31), F("mips32", "ori", "ori $t0, $t0, ", "", 16),
  F("pic14", "movlw", "movlw ", "", 8, bpa=2), F("tms9900", "li", "li r0, ", "", 16), F("68000", "moveq", "moveq #", ", d0", 8), F("68000", "addq", "addq.w #", ", d0", 3, lo=1, hi=8),
+ F("epiphany", "beq", "beq ", "", 32, rel=(24, 2, 0)), F("epiphany", "b", "b ", "", 32, rel=(24, 2, 0)), F("epiphany", "bl", "bl ", "", 32, rel=(24, 2, 0)),
  F("thumb", "movs", "movs r0, #", "", 8, lo=0, hi=255), F("6800", "ldaa_imm", "ldaa #", "", 8), F("sh4", "mov_imm", "mov #", ", r1", 8),
 ]
-QUICK = {"msp430", "6502", "z80", "avr8", "riscv", "8051"}
+QUICK = {"msp430", "6502", "z80", "avr8", "riscv", "8051", "epiphany"}
 
 def jobs(tier):
     js = []
@@ -30,6 +31,10 @@ def jobs(tier):
         js.append(vp.Job("operands.range.%s.%s" % (f["cpu"], f["name"]), "operands.cpp", d1, max_paths=200000, timeout=600, min_completed=2))
         if not f["rel"]:
             js.append(vp.Job("operands.inj.%s.%s" % (f["cpu"], f["name"]), "operands.cpp", dict(base, MODE=2), max_paths=200000, timeout=600, min_completed=1))
+        else:
+            # branch targets: two different accepted targets within +-1500 address units of the instruction never encode alike
+            # (covers the boundary between a short and a long branch form where an assembler chooses between them)
+            js.append(vp.Job("operands.inj.%s.%s" % (f["cpu"], f["name"]), "operands.cpp", dict(base, MODE=2, W=32, LO="%dLL" % (4096 - 1500), HI="%dLL" % (4096 + 1500)), max_paths=200000, timeout=600, min_completed=1))
     return js
 
 def main(tier):
